@@ -104,11 +104,12 @@ def crossratio(
         if not np.all(collinear):
             raise NotCollinear("The points are not collinear: " + str([a, b, c, d]))
 
-        basis = np.stack([a.array, b.array], axis=-2)
-        a = matvec(basis, a.array)
-        b = matvec(basis, b.array)
-        c = matvec(basis, c.array)
-        d = matvec(basis, d.array)
+        a, b, c, d = np.broadcast_arrays(a.array, b.array, c.array, d.array)
+        basis = np.stack([a, b], axis=-2)
+        a = matvec(basis, a)
+        b = matvec(basis, b)
+        c = matvec(basis, c)
+        d = matvec(basis, d)
         o = []
 
     elif from_point is not None:
